@@ -11,7 +11,7 @@ from vf.zoo import A, FD6, softabs_dense, unit, vec
 
 ID = "C11"
 LEVEL = "exploration"
-BUDGET = {"quick": 3200, "thorough": 64000}
+BUDGET = {"quick": 19200, "thorough": 192000}
 RULE = (
     "Hypothesis draws one of the 12 concrete DifferentiableMatrix classes with every constructor option "
     "(sign +-1, lower/upper factor given as array / TriangularMatrix / InverseTriangularMatrix, inner matrix "
